@@ -109,6 +109,8 @@ def job_batch(prop, seed, cls, cfg, run_indices, timeout_s):
         "states": set(),
         "transitions": set(),
         "fault_sites": set(),
+        "preempt_sites": set(),
+        "preemptions": 0,
     }
     per_site_kept = Counter()
     known = [e for e in load_known() if e["property"] == prop]
@@ -133,6 +135,8 @@ def job_batch(prop, seed, cls, cfg, run_indices, timeout_s):
         agg["transitions"].update(rec.get("transitions", ()))
         agg["faults"].update(rec.get("faults", ()))
         agg["fault_sites"].update(rec.get("fault_sites", ()))
+        agg["preempt_sites"].update(rec.get("preempt_sites", ()))
+        agg["preemptions"] += rec.get("n_preemptions", 0)
         agg["ticks"] += rec.get("ticks", 0)
         agg["pools"] += rec.get("n_pools", 0)
         if rec.get("sample") is not None and c["want_sample"]:
@@ -233,6 +237,28 @@ def job_shrink(prop, cls, cfg, scen_list, sched_list, target_site, max_evals, bu
     out["evals"] = evals
     _arm(0)
     return out
+
+
+def job_sequence(prop, seed, cls, cfg, indices, target_site):
+    """Execute the runs `indices` (global run indices of one class) in this order in this one
+    process, from their seeds, and report the violations of the LAST one.  Used when a violation
+    does not reproduce from its own run alone: the outcome then depends on something an earlier
+    call left behind in the process (module-level or thread-local state of the library)."""
+    _worker_init()
+    _arm(cfg.get("timeout_s", 600))
+    rec = None
+    for i in indices:
+        scen = Choices(seed=derive_seed(seed, prop, "scen", i))
+        sched = Choices(seed=derive_seed(seed, prop, "sched", i))
+        c = dict(cfg)
+        c["fault_mode"] = bool(cfg.get("fault_every")) and (i - cfg.get("class_offset", 0)) % cfg["fault_every"] == cfg["fault_every"] - 1
+        c["want_sample"] = i == indices[-1]
+        c["run_index"] = i
+        rec = run_single(prop, cls, c, scen, sched)
+    _arm(0)
+    target = site_hash(target_site)
+    viol = [{"site": v["site"], "features": v.get("features", {}), "expected": _short(v.get("expected")), "actual": _short(v.get("actual"))} for v in rec["violations"]]
+    return {"reproduced": any(site_hash(v["site"]) == target for v in viol), "violations": viol, "sample": rec.get("sample"), "events": rec.get("events"), "result": rec.get("result")}
 
 
 # ---------------------------------------------------------------------------
@@ -449,6 +475,7 @@ def run_check(prop: str, tier: str, seed: int, runs: int | None = None, workers:
         nontrivial, inter = [], []
         states_all, transitions_all = set(), set()
         fault_sites_all = set()
+        preempt_sites_all = set()
         samples = []
         raw_violations = []
         walls = []
@@ -472,6 +499,8 @@ def run_check(prop: str, tier: str, seed: int, runs: int | None = None, workers:
             transitions_all.update(r.get("transitions", ()))
             faults.update(r["faults"])
             fault_sites_all.update(r.get("fault_sites", ()))
+            preempt_sites_all.update(r.get("preempt_sites", ()))
+            total["preemptions"] += r.get("preemptions", 0)
             site_counts.update(r["site_counts"])
             nontrivial.append(r["nontrivial_digests"])
             inter.append(r["interleavings"])
@@ -504,8 +533,62 @@ def run_check(prop: str, tier: str, seed: int, runs: int | None = None, workers:
                 raise HarnessError(f"shrink failed: {ex!r}")
             path = os.path.join(ROOT, "replays", prop, f"{sh}.json")
             if not out.get("reproduced"):
-                # not reproducible from its own choices: a determinism failure of the harness
-                raise HarnessError(f"violation at run {v['run_index']} did not reproduce from its recorded choices: {v['site']}")
+                # other occurrences of the same site may be self-contained
+                for v2 in by_site[sh][1:4]:
+                    rcfg2 = dict(cfg, fault_mode=v2["fault_mode"], run_index=v2["run_index"])
+                    rcfg2.pop("class_offset", None)
+                    out2 = pools.submit(0, job_shrink, prop, v2["cls"], rcfg2, v2["scen"], v2["sched"], v2["site"], getattr(mod, "SHRINK_EVALS", 300), getattr(mod, "SHRINK_BUDGET_S", 150)).result(timeout=900)
+                    if out2.get("reproduced"):
+                        v, rcfg, out = v2, rcfg2, out2
+                        break
+            if not out.get("reproduced"):
+                # Not reproducible from its own run: either the outcome depends on what earlier runs
+                # left behind in the worker process (state of the library that outlives a call), or
+                # the harness is not deterministic.  Decide by re-executing, in one fresh process, the
+                # runs of the same class that preceded it (shortest reproducing suffix).
+                ci = [tuple(c_) if isinstance(c_, list) else c_ for c_ in classes].index(tuple(v["cls"]) if isinstance(v["cls"], list) else v["cls"])
+                before = [i_ for i_ in per_class[ci] if i_ < v["run_index"]]
+                scfg = dict(cfg, class_offset=offs[ci])
+                seq_out, seq = None, None
+                for k_ in (1, 2, 4, 8, 16, 32, 64, 128, 256, len(before)):
+                    cand = before[len(before) - min(k_, len(before)) :] + [v["run_index"]]
+                    fresh = Pools(2)  # processes without any history
+                    try:
+                        o_ = fresh.submit(0, job_sequence, prop, seed, v["cls"], scfg, cand, v["site"]).result(timeout=1200)
+                        o2_ = fresh.submit(1, job_sequence, prop, seed, v["cls"], scfg, cand, v["site"]).result(timeout=1200) if o_.get("reproduced") else None
+                    finally:
+                        fresh.close()
+                    if o_.get("reproduced"):
+                        # (confirmed by the same sequence in a second fresh process)
+                        if o2_.get("reproduced") and o2_.get("result") == o_.get("result"):
+                            seq_out, seq = o_, cand
+                        break
+                    if k_ >= len(before):
+                        break
+                if seq_out is None:
+                    raise HarnessError(f"violation at run {v['run_index']} did not reproduce from its recorded choices, nor from the runs of its class preceding it: {v['site']}")
+                viol = [x for x in seq_out["violations"] if site_hash(x["site"]) == sh][0]
+                viol["features"] = dict(viol.get("features", {}), cross_call_state=True)
+                write_json(
+                    path,
+                    {
+                        "property": prop,
+                        "seed": seed,
+                        "run_index": v["run_index"],
+                        "cls": v["cls"],
+                        "cfg": scfg,
+                        "format": 3,
+                        "sequence": seq,
+                        "note": "the violation does not occur when the last run is executed alone: it needs what the earlier runs of the sequence (all calls of the public API on fresh inputs) left behind in the process. Replay executes the listed runs in order, from their seeds, in one fresh process.",
+                        "scenario": seq_out.get("sample"),
+                        "violation": viol,
+                        "event_log_sha256": seq_out.get("events"),
+                        "result_sha256": seq_out.get("result"),
+                        "occurrences_in_batch": site_counts[sh],
+                    },
+                )
+                violations_new.append((viol["site"], path, f"(needs state left behind by earlier calls in the process; sequence of {len(seq)} runs) expected={viol['expected']} actual={viol['actual']}"))
+                continue
             viol = [x for x in out["violations"] if site_hash(x["site"]) == sh][0]
             write_json(
                 path,
@@ -580,8 +663,11 @@ def run_check(prop: str, tier: str, seed: int, runs: int | None = None, workers:
                 "distinct_stmt_fault_points": len(fault_sites_all),
                 "stmt_fault_point_measure": "distinct (file:function:line) of groupby_lib at which a statement-level fault (stmt_fail / stmt_interrupt) actually fired",
                 "stmt_fault_points_sample": sorted(fault_sites_all)[:: max(1, len(fault_sites_all) // 12)][:12],
+                "preemptions_inside_task_bodies": int(total["preemptions"]),
+                "distinct_preemption_points": len(preempt_sites_all),
+                "preemption_measure": "pre-emptive pool model (one run in four of the fault-free configuration): task bodies run in real threads of which exactly one holds the baton; count of pre-emptions at line events of groupby_lib frames inside task bodies, and distinct (file:function:line) pre-empted at",
                 "distinct_interleavings": n_inter,
-                "interleaving_measure": "distinct (call-site, n_tasks, depth, body execution order, delivery order, #done at each delivery) tuples over all simulated pools",
+                "interleaving_measure": "distinct (call-site, n_tasks, depth, body execution order, delivery order, #done at each delivery[, sequence of task slices in the pre-emptive model]) tuples over all simulated pools",
                 "states_reached": len(states_all),
                 "transitions_reached": len(transitions_all),
                 "state_measure": "C13/C19: (key layout, bitmask of filled cached properties) of the reused GroupBy; transitions: (state, operation, state). 0 for checks without an object under history.",
@@ -671,7 +757,10 @@ def run_replay(path: str):
     prop = rf["property"]
     pools = Pools(1)
     try:
-        out = pools.submit(0, job_replay, prop, rf["cls"], rf["cfg"], rf["scen"], rf["sched"], True, rf.get("scenario_full")).result(timeout=1200)
+        if rf.get("format") == 3:
+            out = pools.submit(0, job_sequence, prop, rf["seed"], rf["cls"], rf["cfg"], rf["sequence"], rf["violation"]["site"]).result(timeout=1800)
+        else:
+            out = pools.submit(0, job_replay, prop, rf["cls"], rf["cfg"], rf["scen"], rf["sched"], True, rf.get("scenario_full")).result(timeout=1200)
     finally:
         pools.close()
     want = site_hash(rf["violation"]["site"])
